@@ -996,8 +996,8 @@ class TermCanvas(Canvas):
             lines = 1
 
         while lines > 0:
-            self.term.insert(row, self.empty_line())
             self.term.pop(self.scrollregion_end)
+            self.term.insert(row, self.empty_line())
             lines -= 1
 
     def remove_lines(self, row: int | None = None, lines: int = 1) -> None:
